@@ -8,6 +8,7 @@ import (
 	"go/ast"
 	"go/parser"
 	"go/token"
+	"slices"
 	"go/types"
 	"sort"
 	"strings"
@@ -1143,6 +1144,8 @@ func (fv *FuncVerifier) verifyUnit(lit *ast.FuncLit) {
 	fv.curLit = 0
 	fv.yieldVar = nil
 	fv.globalWrites = nil
+	fv.orderLeaks = nil
+	fv.mapRangeDepth = 0
 	fv.globalReads = map[string]bool{}
 	fv.nondet = nil
 	var ftype *ast.FuncType
@@ -1499,6 +1502,18 @@ func (fv *FuncVerifier) verifyUnit(lit *ast.FuncLit) {
 		}
 		fv.obls = append(fv.obls, &Obligation{Func: fi.Key, Class: "R", Kind: "noglobalstate", Site: pos, Pos: fv.pos(pos), Goal: True,
 			Desc: desc, consts: fv.consts, Name: fmt.Sprintf("%s#R.noglobalstate[lit%d]", fi.Key, fv.curLit), Status: status, Solver: "govc-analysis"})
+	}
+	if fi.Contr.Has("ordered", fv.curLit) {
+		status := "unsat"
+		desc := "no user code (generator / callback / snippet iterator) is run, and nothing is yielded, from inside a loop whose order is Go's map iteration order: the ORDER of this body's side effects is a function of its inputs' contents"
+		if len(fv.orderLeaks) > 0 {
+			status = "failed"
+			l := append([]string(nil), fv.orderLeaks...)
+			sort.Strings(l)
+			desc = "order of side effects depends on map iteration order: " + strings.Join(slices.Compact(l), "; ")
+		}
+		fv.obls = append(fv.obls, &Obligation{Func: fi.Key, Class: "R", Kind: "ordered", Site: pos, Pos: fv.pos(pos), Goal: True,
+			Desc: desc, consts: fv.consts, Name: fmt.Sprintf("%s#R.ordered[lit%d]", fi.Key, fv.curLit), Status: status, Solver: "govc-analysis"})
 	}
 	if fi.Contr.Has("noglobals", fv.curLit) {
 		status := "unsat"
